@@ -108,6 +108,24 @@ def source_audit() -> list[str]:
     return bad
 
 
+_IMPORT = re.compile(r'^import\s+([A-Za-z0-9_.]+)', re.M)
+
+
+def import_closure(module: str) -> set[str]:
+    """Modules of this package transitively imported by `module` (parsed from the sources)."""
+    seen: set[str] = set()
+    todo = [module]
+    while todo:
+        m = todo.pop()
+        if m in seen or not (m.startswith('AeicModel') or m.startswith('AeicProofs')):
+            continue
+        seen.add(m)
+        f = LEAN_DIR / (m.replace('.', '/') + '.lean')
+        if f.exists():
+            todo += _IMPORT.findall(f.read_text())
+    return seen
+
+
 _THM = re.compile(r'^\s*(?:@\[[^\]]*\]\s*)?theorem\s+([A-Za-z_][A-Za-z0-9_\'.]*)', re.M)
 
 
@@ -261,14 +279,23 @@ class Ctx:
 
     # ---- proofs
     def proofs(self):
-        """Translator + lake build + source audit + axiom audit for this property's theorems."""
+        """Translator + lake build (this property's proof module and the driver) + source audit + axiom audit."""
         from . import translator
 
+        deps = import_closure(f'AeicProofs.Properties.{self.pid}')
+        uses_generated = any(m.startswith('AeicModel.Generated') for m in deps)
         try:
             translator.regenerate()
-        except Exception as e:  # extraction failed: a broken correspondence, handled by classification
-            self.broken_obligation(f'translator: {type(e).__name__}: {e}')
-        ok, out = lake_build()
+        except Exception as e:  # extraction failed: a broken correspondence for the properties that use the constants
+            msg = f'translator: {type(e).__name__}: {e}'
+            if uses_generated:
+                self.broken_obligation(msg)
+            else:
+                self.notes.append(msg + ' (this property does not depend on the generated constants)')
+        targets = ['aeic_driver']
+        if (LEAN_DIR / 'AeicProofs' / 'Properties' / f'{self.pid}.lean').exists():
+            targets.append(f'AeicProofs.Properties.{self.pid}')
+        ok, out = lake_build(targets)
         if not ok:
             errs = [ln for ln in out.split('\n') if 'error' in ln.lower()][:20]
             self.broken_obligation('lake build failed: ' + ' | '.join(errs))
